@@ -34,6 +34,12 @@ CLAIMED = {
  "C05": ("Run-time-panic obligations (nil dereference, index/slice bounds, division by zero, negative shift, failed type assertion, nil-map write, make length/size, close of closed channel, explicit panic) generated without annotation for every function under contract that does not opt out, and proved with unconstrained arguments: all of number.go's kernels and dispatchers, the operator table functions, the stream cursor methods, promiseStack and Promise.child, the enum-to-atom tables of exception.go/stream.go (enum validity as type invariants), both ring buffers, float() (no nil dereference on a ParseFloat error, no infinite literal), makeSlice (every make in the function; its recover clause honoured only while the deferred recover exists).",
          "Fragment: parser/lexer recursion depth (X = [- never returns), blocking, most built-ins (declared nosafety where their contracts are about wiring), arbitrary byte strings as text are not decided. F23 (makeSlice trusts an unset memory limit) is an open known finding. Trusted: extern contracts for math/big, bufio, context; assumptions listed per function in the evidence.",
          "contract-based deductive verification: zero-annotation safety VCs over go/ssa + SMT", "DESIGN.md 5 C05"),
+ "C12": ("Solutions.Next/Close/Err as a sequential typestate with a ghost field 'the answer channel was found closed': Next never sends once the producer has finished (the send is an obligation over the ghost field, which the done flag must record), returns false without any channel operation after Close or exhaustion, false implies closed or done, Next never closes; Close returns ErrClosed without communicating when repeated and closes the channel exactly once otherwise; the closed/done flags are only ever set to true anywhere in the package (census), so the typestate is monotone over every call history.",
+         "Fragment: everything that needs the producer goroutine (that the first false arrives, no goal runs after Close, goroutine termination, interleaving several Solutions, Scan reporting the latest answer) is not decided; channels are ghost events, not a concurrency model.",
+         "contract-based deductive verification: WP over go/ssa with ghost fields and channel events as ghost obligations + structural census", "DESIGN.md 5 C12"),
+ "C14": ("Ownership discipline of every package-level variable of both packages (235 variables), decided on the SSA of all functions: write-once (stored only by package init, and nothing reachable through it is written elsewhere), atomic (varCounter: only through sync/atomic), guarded-by (atomTable: every read under Lock/RLock, every write under Lock, unlock only by defer, and a write's critical section contains the reads it decides on), test-hook. So two interpreters share no mutable memory except the two synchronised globals.",
+         "Fragment: a happens-before argument (the family has no thread model), races inside one interpreter between the query goroutine and its consumer (Solutions.err), value flow across function boundaries (a map reachable from a global passed to a callee that mutates it is not followed), and the stores of Force/child to shared promise objects are not decided here.",
+         "contract-based verification: frame/ownership obligations decided structurally on go/ssa (no solver)", "DESIGN.md 5 C14"),
 }
 
 NA_REASON = {
